@@ -20,7 +20,8 @@
 #ifndef TBOX_COROUTINE_SEMAPHORE_HPP_20180527
 #define TBOX_COROUTINE_SEMAPHORE_HPP_20180527
 
-#include <queue>
+#include <deque>
+#include <algorithm>
 #include "scheduler.h"
 
 namespace tbox {
@@ -35,10 +36,18 @@ class Semaphore {
     bool acquire () {
         if (count_ == 0) {      //! 如果没有资源，则等待
             do {
-                token_.push(sch_.getToken());   //! 每次等待前都要登记，否则被唤醒后再次等待就无人唤醒了
+                token_.push_back(sch_.getToken());  //! 每次等待前都要登记，否则被唤醒后再次等待就无人唤醒了
                 sch_.wait();
-                if (sch_.isCanceled())
+                if (sch_.isCanceled()) {
+                    //! 被取消了，要撤销自己的登记，否则下次 release() 唤醒的是一个已不存在的等待者
+                    auto iter = std::find(token_.begin(), token_.end(), sch_.getToken());
+                    if (iter != token_.end())
+                        token_.erase(iter);
+                    //! 如果登记已被 release() 取走，说明那次唤醒是给自己的，要转交给下一个等待者
+                    else if (count_ != 0)
+                        wakeupOne();
                     return false;
+                }
             } while (count_ == 0);
         }
 
@@ -48,21 +57,27 @@ class Semaphore {
 
     //! 释放资源
     void release() {
-        if (!token_.empty()) {  //! 每释放一个资源就唤醒一个等待者
-            auto t = token_.front();
-            token_.pop();
-            sch_.resume(t);
-        }
+        wakeupOne();    //! 每释放一个资源就唤醒一个等待者
         ++count_;
     }
 
     inline bool count() const { return count_; }
 
   private:
+    //! 唤醒最早的一个等待者
+    void wakeupOne() {
+        if (!token_.empty()) {
+            auto t = token_.front();
+            token_.pop_front();
+            sch_.resume(t);
+        }
+    }
+
+  private:
     Scheduler &sch_;
 
     int count_;
-    std::queue<RoutineToken> token_;
+    std::deque<RoutineToken> token_;
 };
 
 }
